@@ -15,7 +15,7 @@ ID = "C01"
 LEVEL = "exploration"
 RULE = ("e2e case = (protocol version, token/key (bytes or hex) / device id, device start state, requested state incl. optional display "
         "toggle, segmentation of the device's reply stream {one packet per segment, all coalesced, byte-by-byte, random cuts, one packet "
-        "split}, 0..3 unsolicited/duplicate state frames rendering the device's current state before/after the reply): client A applies the "
+        "split}, 0..3 unsolicited/duplicate state frames rendering the device's current state before/after the reply): client A (which on V3 may call authenticate() again on its live connection before/after) applies the "
         "state, then a different fresh instance B on a fresh connection refreshes. Oracle: the simulated device's state (reference decode "
         "of the control body that arrived after V2 unwrap / V3 decrypt) equals the state assigned through A's public setters, and B's "
         "public attributes equal the device state. Concurrent case = 2..4 client instances issuing mixed apply/refresh against one device "
@@ -43,7 +43,8 @@ def _case(rng, st, version=None, seg=None, did=None):
             "start": gen.random_state(rng), "state": st, "toggle": rng.random() < 0.3, "start_display": rng.random() < 0.5,
             "seg": seg or rng.choice(SEGS), "before": rng.randint(0, 3) if rng.random() < 0.5 else 0,
             "after": rng.randint(0, 3) if rng.random() < 0.5 else 0, "sseed": rng.getrandbits(32),
-            "report_length": rng.choice([23, 23, 24, 30]), "check": rng.choice(["crc", "sum"])}
+            "report_length": rng.choice([23, 23, 24, 30]), "check": rng.choice(["crc", "sum"]),
+            "reauth": rng.choice([None, None, "before-apply", "after-apply", "both"])}
 
 
 def generate(ctx, rng):
@@ -146,11 +147,19 @@ def run_case(ctx, case):
         a = AC(ip=dev.host, port=dev.port, device_id=dev.device_id)
         if version == 3:
             await a.authenticate(tok_arg, key_arg)
+        if version == 3 and case.get("reauth") in ("before-apply", "both"):
+            await a.authenticate(tok_arg, key_arg)      # an application re-running its set-up on the live (quiescent) connection
         gen.apply_to_ac(a, st)
         await a.apply()
         dev_after_apply = dict(model.state)
         n_controls = len(model.controls)
         toggled = None
+        a_reads = None
+        if version == 3 and case.get("reauth") in ("after-apply", "both"):
+            await asyncio.sleep(2.0)      # let every byte of the previous exchange land: a handshake racing in-flight data is not judged
+            await a.authenticate(tok_arg, key_arg)
+            await a.refresh()
+            a_reads = (a.online, int(a.fan_speed), a.target_humidity, model.state["fan"], model.state["target_humidity"])
         if case["toggle"]:
             before_disp = model.state["display_on"]
             await a.toggle_display()
@@ -159,12 +168,12 @@ def run_case(ctx, case):
         if version == 3:
             await b.authenticate(tok_arg, key_arg)
         await b.refresh()
-        return dev_after_apply, n_controls, toggled, b.online, H.public_state(b), dict(model.state)
+        return dev_after_apply, n_controls, toggled, b.online, H.public_state(b), dict(model.state), a_reads
 
     key_ = ("e2e", version, case["id"], gen.state_key(st), case["seg"], case["before"], case["after"], case["toggle"], case["sseed"])
     segclass = "v2-segment-splits-packet" if (version == 2 and info["splits"]) else None
     try:
-        (dev_after_apply, n_controls, toggled, online, got, dev_final), loop = H.run_virtual(go, net)
+        (dev_after_apply, n_controls, toggled, online, got, dev_final, a_reads), loop = H.run_virtual(go, net)
     except Exception as e:  # noqa: BLE001
         ctx.count(key_, kind="e2e-raised")
         segclass = "v2-segment-splits-packet" if (version == 2 and info["splits"]) else None
@@ -182,6 +191,10 @@ def run_case(ctx, case):
     if info.get("ids", set()) - {case["id"]}:
         bad = True
         ctx.violation("device-id-on-wire", f"packets carried device id(s) {sorted(info['ids'])} instead of {case['id']}", case)
+    if a_reads is not None and (not a_reads[0] or a_reads[1:3] != a_reads[3:5]) and not segclass:
+        bad = True
+        ctx.violation("refresh-after-reauthentication", f"client A after a second authenticate(): online={a_reads[0]}, reads fan/humidity {a_reads[1:3]}, "
+                      f"device has {a_reads[3:5]}", case)
     if toggled is not None and toggled[0] == toggled[1]:
         bad = True
         ctx.violation("toggle-not-received", "toggle_display() did not reach the device", case)
